@@ -46,7 +46,8 @@ def targeted_cases(rng):
 def check(tier):
     rep = vlib.Report(PROP, tier, "proof")
     rng = random.Random(rep.seed)
-    st = vlib.proof_stage(rep, "Properties_C17.v", ["tmpl"])
+    st = vlib.proof_stage(rep, "Properties_C17.v", ["tmpl"],
+                          tables=(("Tables", "gentables.cpp"), ("Tables_digit", "gentables_digit.cpp"), ("Tables_tmplfmt", "gentables_tmplfmt.cpp")))
     exe, msg = c02.build("sse2")
     texe, tmsg = vlib.build_cpp("drv_tmpl17", "drv_tmpl17.cpp", san="thread")
     if exe is None or texe is None:
